@@ -892,12 +892,25 @@ impl PB<'_> {
             3 => {
                 // apply returning a substring of pre-existing program data (old-bytes path)
                 let two = self.atom(&[2]);
+                // (any slice, the empty one and the whole atom included)
+                let (lo, hi) = match self.rng.below(4) {
+                    0 => (3, 300),
+                    1 => {
+                        let k = self.rng.usize(600);
+                        (k, k)
+                    }
+                    2 => (0, self.rng.usize(5)),
+                    _ => {
+                        let k = self.rng.usize(500);
+                        (k, k + self.rng.usize(100))
+                    }
+                };
                 let i1 = {
-                    let n = self.atom(&int_bytes(3));
+                    let n = self.atom(&int_bytes(lo as i128));
                     self.q(n)
                 };
                 let i2 = {
-                    let n = self.atom(&int_bytes(300));
+                    let n = self.atom(&int_bytes(hi as i128));
                     self.q(n)
                 };
                 let body = self.op1(12, &[two, i1, i2]);
